@@ -158,6 +158,7 @@ func runC04(c *Ctx) {
 	c.rule("N10", "Exists(): where opening a directory fails, 'does not exist' is answered only if the failure says so (the error is classified), never for every failure", 1)
 	c.rule("N11", "an empty path designates no tree: where a removal function tests its path parameter for emptiness, no caller hands it the result of filepath.Clean (which turns \"\" into \".\", the current directory)", 1)
 	c.rule("N12", "the privileged removal of package platform cleans the path it is given before it examines it and hands it to a command: `link/` designates what the link points to, for rm as for Lstat", 1)
+	c.rule("N13", "in the removal call graph a name or a path is tested for emptiness by comparison with \"\", never with reflection.IsEmpty (which trims white space: entries whose names are made of blanks are legal, and would be skipped)", 0)
 	c.rule("N8", "in the removal call graph, an error assigned to a variable is read before the variable is overwritten or the function returns: a failed step (cleaning, listing, removing) cannot be covered by the result of the next one", 40)
 
 	c.patternLoopsComplete("N4")
@@ -542,6 +543,37 @@ func runC04(c *Ctx) {
 		}
 		if n == 0 {
 			c.violate("N11", "filesystem/empty-path-guard", "", "no removal function tests its path for emptiness any more: removing the empty path acts on the current directory")
+		}
+	}
+
+	// ---- N13 ----------------------------------------------------------------
+	// "the tree is really gone": an entry whose name consists of blanks is an entry like any other. reflection.IsEmpty
+	// answers true for a string of white space: used on the name of an entry (or on a path) it makes the removal skip it,
+	// the level above finds the directory not empty and stops there, successfully.
+	{
+		n := 0
+		for _, f := range fns {
+			if c08Appliers[outermost(f).Name()] {
+				continue // patterns are not names
+			}
+			allInstrs(f, func(in ssa.Instruction) {
+				cl, ok := in.(*ssa.Call)
+				if !ok || !strings.HasSuffix(calleeFull(&cl.Call), "reflection.IsEmpty") || len(cl.Call.Args) == 0 {
+					return
+				}
+				a := cl.Call.Args[0]
+				if mi, ok := a.(*ssa.MakeInterface); ok {
+					a = mi.X
+				}
+				if a.Type().String() != "string" {
+					return
+				}
+				n++
+				c.violate("N13", fname(outermost(f))+"/blank-names", c.ipos(cl), "reflection.IsEmpty is applied to a name or a path: it is true for a string of white space, so an entry named \" \" (a file, a directory, a dangling link) is skipped by the removal, which reports success with the entry — and every directory above it — still there")
+			})
+		}
+		if n == 0 {
+			c.info("N13", "filesystem/no-blank-trimming-emptiness-test", "-", "no reflection.IsEmpty on a string in the removal call graph")
 		}
 	}
 
